@@ -364,6 +364,18 @@ func c07Mutate(doc map[string]interface{}, mut string) bool {
 			p["domain"] = "other.example"
 		case "challenge":
 			p["challenge"] = "other-challenge"
+		case "domain-arr", "challenge-arr", "created-arr", "proofPurpose-arr", "verificationMethod-arr":
+			// the option as a set: the signed value first (if there is one), then another one
+			k := strings.TrimSuffix(f[1], "-arr")
+			if old, ok := p[k]; ok {
+				p[k] = []interface{}{old, "attacker.example.org"}
+			} else {
+				p[k] = []interface{}{"attacker.example.org"}
+			}
+		case "domain-num", "challenge-num":
+			p[strings.TrimSuffix(f[1], "-num")] = 5
+		case "domain-obj", "challenge-obj":
+			p[strings.TrimSuffix(f[1], "-obj")] = map[string]interface{}{"@value": "attacker.example.org"}
 		default:
 			return false
 		}
@@ -447,6 +459,9 @@ func c07Run(input string) string {
 	}
 	suiteName, repr, mut := f[0], f[1], f[3]
 	seed, _ := strconv.Atoi(f[2])
+	if suiteName == "jwt" {
+		return c07RunJWT(repr, seed, mut)
+	}
 	e := c07E
 	cs := envCrypto
 	var (
@@ -501,6 +516,9 @@ func c07Run(input string) string {
 	}
 	ctx := &verifiable.LinkedDataProofContext{SignatureType: sigType, SignatureRepresentation: rep, Created: &created,
 		VerificationMethod: "did:example:issuer#key-1", Purpose: "assertionMethod", Domain: "issuer.example", Challenge: "c-123"}
+	if seed%3 == 0 { // a proof that names neither a domain nor a challenge
+		ctx.Domain, ctx.Challenge = "", ""
+	}
 	switch s := signSuite.(type) {
 	case *ed25519signature2018.Suite:
 		ctx.Suite = s
@@ -703,7 +721,8 @@ func c07Gen(r *Rng, tier string) []string {
 		case x < 16:
 			mut = r.Pick([]string{"reorder", "dup", "proof2:foreign", "proof2:altered"})
 		case x < 18:
-			mut = "opt:" + r.Pick([]string{"created", "verificationMethod", "proofPurpose", "domain", "challenge"})
+			mut = "opt:" + r.Pick([]string{"created", "verificationMethod", "proofPurpose", "domain", "challenge", "domain-arr", "domain-arr",
+				"challenge-arr", "created-arr", "proofPurpose-arr", "verificationMethod-arr", "domain-num", "challenge-num", "domain-obj", "challenge-obj"})
 		case x < 19:
 			mut = r.Pick([]string{"delproof", "proof2:foreign", "proof2:foreign", "proof2:altered", "addtype:top", "addtype:subject", "addtype:nested"})
 		default:
@@ -725,6 +744,7 @@ func c07Gen(r *Rng, tier string) []string {
 		}
 		out = append(out, fmt.Sprintf("%s|%s|%d|%s", s, repr, seed, mut))
 	}
+	out = append(out, c07JWTGen(r, n/4)...)
 	return out
 }
 
